@@ -183,3 +183,10 @@ def fingerprint(r, clauses):
 
 def sample(r):
     return dict(src=r['src'], text=r['text'][:200], lines=len(r['inl']), roundtrip=r['roundtrip'])
+
+
+def corrupt(r):
+    if not r['outl']:
+        return None
+    r['outl'][0] = [120] + r['outl'][0]
+    return r
